@@ -287,47 +287,6 @@ fn cmd_check(args: &[String], reg: &Reg, table: ProfileTable) -> i32 {
     let mut probes_run = 0u64;
     for (p, share) in &ps {
         let n = (runs * share / share_total).max(1);
-        // cold-start probes: fresh processes, single-threaded, short slices at scattered offsets
-        if violation.is_none() {
-            let exe = std::env::current_exe().expect("exe");
-            let n_probes: u64 = if tier == "thorough" { 24 } else { 8 };
-            for i in 0..n_probes {
-                let first = 1_000_000 + i * 1000;
-                let out = std::process::Command::new(&exe)
-                    .args(["probe", &prop, "--seed", &seed.to_string(), "--first", &first.to_string(), "--runs", "40", "--profile", p.name(), "--tier", &tier])
-                    .args(["--known", &arg_val(args, "--known").unwrap_or_else(|| "/verif/known_findings.txt".to_string())])
-                    .output()
-                    .expect("spawn probe");
-                probes_run += 1;
-                let text = String::from_utf8_lossy(&out.stdout).to_string();
-                if out.status.code() == Some(2) {
-                    harness.push(format!("cold-start probe: {}", text.trim()));
-                }
-                if out.status.code() == Some(1) {
-                    if let Some(line) = text.lines().find(|l| l.starts_with("PROBE-FAIL")) {
-                        let run: u64 = line.split("run=").nth(1).and_then(|x| x.split_whitespace().next()).and_then(|x| x.parse().ok()).unwrap_or(first);
-                        let oracle = line.split("oracle=").nth(1).and_then(|x| x.split_whitespace().next()).unwrap_or("").to_string();
-                        let _ = std::fs::create_dir_all(&replays);
-                        let hist = replays.join(format!("{}-{}-{}-history.json", prop, seed, run));
-                        let hbody = json!({
-                            "kind": "thread-history", "property": prop, "oracle": oracle, "seed": seed, "run": run, "first": first,
-                            "workers": 1, "profile": p.name(), "tier": tier, "found_by": "cold-start probe", "detail": line,
-                            "note": "replay = runs first..=run on one thread of a fresh process",
-                        });
-                        std::fs::write(&hist, serde_json::to_string_pretty(&hbody).unwrap()).expect("write replay");
-                        let st = std::process::Command::new(&exe).arg("replay").arg(&hist).output().expect("spawn replay");
-                        if st.status.code() == Some(1) {
-                            println!("violation: {} (cold-start probe at run {})", line, run);
-                            violation = Some((oracle, hist));
-                            total_viol += 1;
-                        } else {
-                            harness.push(format!("cold-start probe failed at run {run} but its history did not reproduce in a fresh process"));
-                        }
-                        break;
-                    }
-                }
-            }
-        }
         let agg = sweep(p.as_ref(), reg, seed, 0, n, workers, false, Some(deadline), &known);
         for (r, e) in agg.harness.iter().take(3) {
             harness.push(format!("{} run {}: {}", p.name(), r, e));
@@ -414,6 +373,47 @@ fn cmd_check(args: &[String], reg: &Reg, table: ProfileTable) -> i32 {
                                 run, f.oracle
                             )),
                         }
+                    }
+                }
+            }
+        }
+        // cold-start probes: fresh processes, single-threaded, short slices at scattered offsets
+        if violation.is_none() {
+            let exe = std::env::current_exe().expect("exe");
+            let n_probes: u64 = if tier == "thorough" { 24 } else { 8 };
+            for i in 0..n_probes {
+                let first = 1_000_000 + i * 1000;
+                let out = std::process::Command::new(&exe)
+                    .args(["probe", &prop, "--seed", &seed.to_string(), "--first", &first.to_string(), "--runs", "40", "--profile", p.name(), "--tier", &tier])
+                    .args(["--known", &arg_val(args, "--known").unwrap_or_else(|| "/verif/known_findings.txt".to_string())])
+                    .output()
+                    .expect("spawn probe");
+                probes_run += 1;
+                let text = String::from_utf8_lossy(&out.stdout).to_string();
+                if out.status.code() == Some(2) {
+                    harness.push(format!("cold-start probe: {}", text.trim()));
+                }
+                if out.status.code() == Some(1) {
+                    if let Some(line) = text.lines().find(|l| l.starts_with("PROBE-FAIL")) {
+                        let run: u64 = line.split("run=").nth(1).and_then(|x| x.split_whitespace().next()).and_then(|x| x.parse().ok()).unwrap_or(first);
+                        let oracle = line.split("oracle=").nth(1).and_then(|x| x.split_whitespace().next()).unwrap_or("").to_string();
+                        let _ = std::fs::create_dir_all(&replays);
+                        let hist = replays.join(format!("{}-{}-{}-history.json", prop, seed, run));
+                        let hbody = json!({
+                            "kind": "thread-history", "property": prop, "oracle": oracle, "seed": seed, "run": run, "first": first,
+                            "workers": 1, "profile": p.name(), "tier": tier, "found_by": "cold-start probe", "detail": line,
+                            "note": "replay = runs first..=run on one thread of a fresh process",
+                        });
+                        std::fs::write(&hist, serde_json::to_string_pretty(&hbody).unwrap()).expect("write replay");
+                        let st = std::process::Command::new(&exe).arg("replay").arg(&hist).output().expect("spawn replay");
+                        if st.status.code() == Some(1) {
+                            println!("violation: {} (cold-start probe at run {})", line, run);
+                            violation = Some((oracle, hist));
+                            total_viol += 1;
+                        } else {
+                            harness.push(format!("cold-start probe failed at run {run} but its history did not reproduce in a fresh process"));
+                        }
+                        break;
                     }
                 }
             }
